@@ -24,6 +24,8 @@ def registry():
     reg["C20"] = lambda: options.make("C20")
     from mc.checks import infohash
     reg["C08"] = lambda: infohash.make("C08")
+    from mc.checks import readonly
+    reg["C18"] = lambda: readonly.make("C18")
     return reg
 
 
